@@ -48,8 +48,11 @@ def _clamp(ctx):
     # orderings of x against (min, max): representative points
     points = [('x<min', -5, 0, 10), ('x=min', 0, 0, 10), ('min<x<max', 5, 0, 10), ('x=max', 10, 0, 10), ('x>max', 15, 0, 10),
               ('min=max,x<', -1, 3, 3), ('min=max,x=', 3, 3, 3), ('min=max,x>', 4, 3, 3)]
+    from ..celltables import bound_places
+    bp = bound_places(f) or ('self.min', 'self.max')
+    rep.sample('bounds of a basis are held in %s / %s (read off what set_value compares with and stores)' % bp)
     for label, x, lo, hi in points:
-        env = {'x': Fraction(x), 'self.min': Fraction(lo), 'self.max': Fraction(hi), 'self.value.value': Fraction(7),
+        env = {'x': Fraction(x), bp[0]: Fraction(lo), bp[1]: Fraction(hi), 'self.value.value': Fraction(7),
                'self.old': Fraction(7)}
         feas = []
         for o in outs:
@@ -94,11 +97,15 @@ def _clamp(ctx):
         for bi, si, pl, w in places_in_body(body):
             if not w:
                 continue
-            for e in pl['p']:
-                if isinstance(e, dict) and e.get('n') in ('min', 'max') and e.get('of', '').startswith('basis::StandardBasis'):
-                    n += 1
-                    rep.fail('R2', 'bounds-are-immutable:%s' % body.path, where(body, bi),
-                             'StandardBasis.%s is assigned after construction' % e.get('n'))
+            names = [e.get('n') for e in pl['p'] if isinstance(e, dict) and 'f' in e]
+            owners = [e.get('of', '') for e in pl['p'] if isinstance(e, dict) and 'f' in e]
+            for bpath in (bp[0].split('.')[1:], bp[1].split('.')[1:]):
+                k2 = len(bpath)
+                for i2 in range(len(names) - k2 + 1):
+                    if names[i2:i2 + k2] == bpath and owners[i2].replace('packing::', '').startswith('basis::StandardBasis'):
+                        n += 1
+                        rep.fail('R2', 'bounds-are-immutable:%s' % body.path, where(body, bi),
+                                 'StandardBasis.%s is assigned after construction' % '.'.join(bpath))
     rep.ok('R2', 'bounds-are-immutable', 'basis::StandardBasis', 'min/max are only set by the constructor')
 
 
